@@ -15,6 +15,16 @@ CLAIMED = {
         "Trusts Python int/Decimal comparison and the harness' reference model (gen_range.member/overall_limits).",
         "5/C01",
     ),
+    "C02": (
+        "hypothesis generated declarations and cells + exhaustive integer-length sweep against reference semantics",
+        "Field declarations are generated from per-type rule grammars in five data formats; cells are generated from "
+        "the rule and by single mutations and judged by an independent three-valued reference (vlib/model_fields.py: "
+        "own range, decimal-separator, calendar, glob and regex-subset semantics); the Integer length sweep is "
+        "complete for its stated space. Sampling elsewhere.",
+        "Trusts int(), decimal.Decimal, time.strptime, re and fnmatch of the runtime; cells the statement leaves "
+        "open (lenient spellings) are neutral and never judged.",
+        "5/C02",
+    ),
     "C13": (
         "bounded-exhaustive enumeration + hypothesis single-edit mutation against a language-membership oracle",
         "Every string over {a,b,CR,LF} up to length 7 (quick) / 9 (thorough) x 39 width lists x 5 delimiter "
